@@ -672,3 +672,19 @@ Proof.
   destruct (M_BaseRegLan_deriv_class fuel k) as [dc|]; [|discriminate H]. cbn [option_map] in H. injection H as H.
   cbn [bind option_map conv_re]. unfold mk_node. rewrite H. reflexivity.
 Qed.
+
+(* ---- equality and order of terms are equality and order of ids ---- *)
+Lemma canon_re_eq a b : M_RE_eq a b = Some (Nat.eqb (RE_id a) (RE_id b)).
+Proof. unfold M_RE_eq, RE_eq. gauto. Qed.
+Lemma canon_re_cmp a b : M_RE_cmp a b = Some (Nat.compare (RE_id a) (RE_id b)).
+Proof. unfold M_RE_cmp, RE_cmp. gauto. Qed.
+Lemma canon_re_partial_cmp a b : M_RE_partial_cmp a b = Some (Some (Nat.compare (RE_id a) (RE_id b))).
+Proof. unfold M_RE_partial_cmp, RE_partial_cmp. rewrite ?canon_re_cmp. gauto. Qed.
+
+Lemma link_re_eq a b : M_RE_eq a b = Some (re_eqb (conv_re a) (conv_re b)).
+Proof.
+  rewrite canon_re_eq. unfold re_eqb. rewrite !rid_conv. f_equal.
+  destruct (Nat.eqb (RE_id a) (RE_id b)) eqn:E1; destruct (N.of_nat (RE_id a) =? N.of_nat (RE_id b)) eqn:E2; try reflexivity; exfalso; lia.
+Qed.
+Lemma link_re_cmp a b : M_RE_cmp a b = Some (N.compare (rid (conv_re a)) (rid (conv_re b))).
+Proof. rewrite canon_re_cmp, !rid_conv. f_equal. apply Nat2N.inj_compare. Qed.
